@@ -79,9 +79,20 @@ package podeni
 
 //@ # the collector keeps the record of a pod whose node cannot be looked up (fail safe: the pod may be running)
 //@ ghost c10nodeerr bool = false
+//@ # ... and of every pod that still needs it: a pod whose sandbox has not exited, that is not host-network and not opted
+//@ # out, needs its record in CRD mode or when it asked for an ENI — whether or not it is being deleted (a terminating pod
+//@ # is still running)
+//@ ghost c10exited bool = false
+//@ ghost c10ign bool = false
+//@ ghost c10useeni bool = false
 //@ func ReconcilePodENI.podRequirePodENI
+//@   requires m != nil && pod != nil
 //@   at call client.Client.Get: ghost c10nodeerr = (result != nil)
 //@   ensures c10nodeerr ==> result
+//@   at call utils.PodSandboxExited: ghost c10exited = result
+//@   at call types.IgnoredByTerway: ghost c10ign = ite(arg0 == pod.Labels, result, c10ign)
+//@   at call types.PodUseENI: ghost c10useeni = result
+//@   ensures !c10exited && !pod.Spec.HostNetwork && !c10ign && (m.crdMode || c10useeni) ==> result
 
 //@ for C11
 //@ # the cloud is asked to detach / delete only an interface that no PodENI record references
@@ -112,3 +123,4 @@ package podeni
 //@ # the controller writes the status of a record only with Update (optimistic concurrency): a blind patch computed from a
 //@ # stale read could move a record that was meanwhile marked Deleting / Detaching back to Bind
 //@ guard? call SubResourceWriter.Patch in podENICreate: false
+
